@@ -50,11 +50,13 @@ Chunk(id, kind) == <<id, kind>>
 S0 == [main |-> 0, pc |-> 0, pending |-> <<>>, fx |-> <<>>, out |-> <<"nil">>, loaded |-> 0]
 
 (* the effects and outcome of running a sequence of chunks: up to and including the first failing one *)
-RECURSIVE RunFx(_, _)
-RunFx(cs, i) == IF i > Len(cs) THEN <<>>
-                ELSE LET me == IF cs[i][1] = 0 THEN <<>> ELSE <<cs[i][1]>> IN
-                     IF cs[i][2] = "fail" THEN me ELSE me \o RunFx(cs, i + 1)
 Fails(cs) == \E i \in 1..Len(cs) : cs[i][2] = "fail"
+(* the chunks run in order up to and including the first failing one (no recursion: the proof system reads this module) *)
+FirstFail(cs) == IF Fails(cs)
+                 THEN CHOOSE i \in 1..Len(cs) : cs[i][2] = "fail" /\ \A j \in 1..(i - 1) : cs[j][2] # "fail"
+                 ELSE Len(cs)
+RunFx(cs, i) == LET t == SelectSeq(SubSeq(cs, i, FirstFail(cs)), LAMBDA c : c[1] # 0)
+                IN  [j \in 1..Len(t) |-> t[j][1]]
 RunOut(cs) == IF Fails(cs) THEN <<"err">>
               ELSE IF Len(cs) = 0 \/ cs[Len(cs)][1] = 0 THEN <<"nil">>
               ELSE <<"val", cs[Len(cs)][1]>>
